@@ -33,6 +33,8 @@ def scenarios(tier):
                 continue  # nothing to read or delete
             out.append({"name": "%s||%s doc %s" % (a, b, st), "init": init, "formats": FORMATS, "pids": ("p1",),
                         "threads": {"T1": [MENU[a]], "T2": [MENU[b]]}})
+    out.append({"name": "Df||Df||M1 from meta (pre-emption bound 2)", "init": "meta", "bound": 2, "formats": FORMATS,
+                "pids": ("p1",), "threads": {"T1": [MENU["Df"]], "T2": [MENU["Df"]], "T3": [MENU["M1"]]}})
     if tier == "thorough":
         for tri, init in [(("M1", "M2", "R"), "meta"), (("M1", "Da", "R"), "meta"), (("Da", "Da", "M1"), "meta2"),
                           (("M1", "DO", "R"), "p1A+meta"), (("Df", "Da", "M2"), "meta"), (("M1", "M2", "Da"), "empty")]:
